@@ -29,6 +29,24 @@ fixed("C01","d66ec89","pin:flags_after_sty_assign","'l = Y' (STY) kept the recor
 fixed("C02","e9684a4","pin:redundant_ldy_removed_flags_needed","peephole removed a redundant LDX/LDY whose N/Z result a following branch consumed")
 fixed("C02","cbd1889","pin:optimizer_flag_tracking","peephole pass kept its flag record across TXA/AND/TAX etc. and removed a load whose flags were needed")
 
+fixed("C02","67a93c8","pin:pairing_across_inline_asm","peephole pass paired the instructions before and after an asm() line (STA b / asm / LDA b lost the load)")
+fixed("C16","4eb5c4a","pin:huge_literal","integer literals that do not fit i32 (or '--5') panicked in parse_int")
+fixed("C16","c535510","pin:only_a_comment","input that preprocesses to nothing panicked in the parse-error path (mapped_lines empty)")
+fixed("C16","9b5c036","pin:calc_shift_overflow","constant calculator panicked on '1<<40' and on errors nested in a sub-expression; results that do not fit are now rejected (also C10)")
+fixed("C16","8c8b067","pin:fold_shift_overflow","statement-level folding panicked on overflowing + - << and bad shift counts (also C10)")
+fixed("C16","ce2484c","pin:void_assigned_to_memory","'a = f();' / 'Y = f();' with a void f reached unreachable!()")
+fixed("C16","1cef5be","pin:define_without_name","'#define 4' and '#define ADD(a,)' panicked in the preprocessor")
+fixed("C16","15f7470","pin:calc_infix_not","grammar accepted ! and ~ as infix operators of constant expressions; the Pratt parser panicked")
+fixed("C16","6944e64","pin:stray_literal_reference","'@1@' typed in the source indexed the literal table out of bounds")
+fixed("C16","8085c0b","pin:sizeof_register","'sizeof X' panicked (X is not in the variable table)")
+fixed("C16","ad830f9","pin:prototype_only_name_as_value","'&X', a prototype-only function name used as a value, strobe(f) panicked in get_variable()")
+fixed("C16","80b979f","pin:string_in_subscript","'t[\"str\"]' referred to a literal variable that was never declared and panicked")
+fixed("C16","be7aece","pin:bank_number_overflow","'bank4294967296' panicked")
+fixed("C16","5dd6ea3","pin:define_duplicate_parameter","'#define ADD(a,a)' panicked building the macro regex")
+fixed("C16","e80413a","pin:negative_asm_size","asm(\"NOP\", 1 -128): negative size cast to u32, size_bytes() overflowed")
+fixed("C16","d0a666b","pin:absurd_subscript","'sc[2147483647]' on a superchip array overflowed the port offset addition")
+fixed("C16","3043510","opts:hostile_define","-D with a non-identifier name panicked in Regex::new; -D A=A+1 / -D \"\" looped forever")
+
 # ---------------- recorded, not repaired (each has a pinned witness in harness/src/pins.rs and a
 # generator rule that keeps the random pools out of the family)
 C01=[
@@ -61,6 +79,7 @@ C01=[
 ]
 for n,w in C01: known("C01","pin:"+n,w)
 
+known("C16","pin:deep_blocks_5000","5000 nested blocks (also 'if' chains and parentheses at similar depths) overflow pest's recursive descent on the 8 MiB stack: the process aborts; depth 512 is fine")
 known("C13","pin:continue_in_switch_in_dowhile","'do { switch (a) { case 1: continue; } } while (c);' jumps to .dowhileconditionN, a label that is never emitted")
 known("C13","pin:goto_undefined_label","'goto nowhere;' is accepted and emits JMP .nowhere with no such label")
 
